@@ -253,6 +253,8 @@ func (cs *ContractSet) parseFile(pkgPath, file string, f *ast.File) {
 				cur.Terminates = true
 			case "trusted":
 				cur.Trusted = true
+			case "functional":
+				cur.Functional = true
 			case "traverse":
 				if strings.HasPrefix(rest, "stepmark ") {
 					// traverse stepmark K param HandleType expr
@@ -294,6 +296,13 @@ func (cs *ContractSet) parseFile(pkgPath, file string, f *ast.File) {
 				cur.Resets = append(cur.Resets, r)
 			case "purefn":
 				cur.PureFns = append(cur.PureFns, strings.Fields(rest)...)
+			case "order":
+				o, err := parseOrder(rest)
+				if err != nil {
+					errf("%v: %s", err, ln)
+					continue
+				}
+				cur.Orders = append(cur.Orders, o)
 			case "ghostcall":
 				// ghostcall CALLEE SET: a call of the named function records its first
 				// (non-receiver) argument in ghost set SET instead of being executed
@@ -338,6 +347,15 @@ func (cs *ContractSet) parseFile(pkgPath, file string, f *ast.File) {
 					l, s := takeLabel(parts[2], len(ls.Invariants))
 					ls.Invariants = append(ls.Invariants, Clause{l, s, slow})
 				case "step":
+					if strings.HasPrefix(parts[2], "keep ") {
+						fs := strings.Fields(parts[2])
+						if len(fs) != 4 {
+							errf("bad step keep clause: %s", ln)
+							continue
+						}
+						ls.Keeps = append(ls.Keeps, KeepSpec{In: fs[1], Out: fs[2], Handle: fs[3]})
+						break
+					}
 					l, s := takeLabel(parts[2], len(ls.Steps))
 					ls.Steps = append(ls.Steps, Clause{l, s, slow})
 				case "decreases":
@@ -348,6 +366,20 @@ func (cs *ContractSet) parseFile(pkgPath, file string, f *ast.File) {
 				cur.Loops[k] = ls
 			case "at":
 				parts := strings.SplitN(rest, " ", 3)
+				if len(parts) == 3 && parts[1] == "keep" {
+					// at CALLEE keep IN OUT HANDLE [unless COND]
+					body, unless, _ := strings.Cut(parts[2], " unless ")
+					fs := strings.Fields(body)
+					if len(fs) != 3 {
+						errf("bad at keep clause: %s", ln)
+						continue
+					}
+					if cur.CallKeeps == nil {
+						cur.CallKeeps = map[string][]KeepSpec{}
+					}
+					cur.CallKeeps[parts[0]] = append(cur.CallKeeps[parts[0]], KeepSpec{In: fs[0], Out: fs[1], Handle: fs[2], Unless: strings.TrimSpace(unless)})
+					continue
+				}
 				if len(parts) < 3 || parts[1] != "assert" {
 					errf("bad at clause: %s", ln)
 					continue
